@@ -77,11 +77,42 @@ def reject_guards(fa, b, call_pred=None, bin_pred=None):
     return edges
 
 
-def guarded_by(b, site, edges):
-    """First guard edge whose removal makes `site` unreachable from the entry, else None."""
+def guarded_by(b, site, edges, value=None):
+    """First guard edge whose removal makes `site` unreachable from the entry, else None.
+    With `value` (the operand the guard is about): a test inside a validation loop
+    `for x in xs { if bad(x) { return Err(..) } }` that runs before `site` also guards it when every iteration of the
+    loop passes the edge and `value` is drawn from the same collection (zero iterations = no value to guard)."""
     for desc, e in edges:
         if cfg.find_path(b, [0], [site], removed_edges=[e]) is None:
             return desc
+    if value is None or cfg.op_place(value) is None:
+        return None
+    sa = cfg.backward_slice(b, [cfg.op_place(value)[0]])[0]
+    preds = cfg.all_pred(b)
+    for desc, e in edges:
+        for comp in cfg.sccs(b):
+            if e[0] not in comp or site in comp:
+                continue
+            headers = [x for x in comp if any(p_ not in comp for p_ in preds[x])]
+            if not headers:
+                continue
+            # (1) no iteration completes without passing the edge
+            outside = [x for x in range(len(b.blocks)) if x not in comp]
+            if cfg.find_path(b, headers, headers, removed_edges=[e], avoid=outside, leave_start=True) is not None:
+                continue
+            # (2) the loop runs before the site
+            if cfg.find_path(b, [0], [site], avoid=headers) is not None:
+                continue
+            # (3) same collection: the loop's iterator and the guarded value come from one Vec / slice local
+            nxt = [t for i, t in cfg.calls(b) if i in comp and (cfg.callee_decl(t) or "").endswith("Iterator::next") and t["a"]]
+            sl = set()
+            for t in nxt:
+                pl = cfg.op_place(t["a"][0])
+                if pl:
+                    sl |= cfg.backward_slice(b, [pl[0]])[0]
+            common_ = [x for x in sl & sa if ("Vec<" in b.local_ty(x) or "[" in b.local_ty(x))]
+            if common_:
+                return desc + " (for every element of `%s`)" % (b.local_name(common_[0]) or "_%d" % common_[0])
     return None
 
 
